@@ -282,6 +282,20 @@ def write_evidence(pid, tier, seed, mod, items, violations, known_hits, wall, re
             if c.prop == pid or not c.prop:
                 trusted.append(f"assumed contract {c.short}: {c.note}")
     level = getattr(mod, "LEVEL", "proof")
+    # what was done to the source text before conditions were generated (meaning-preserving, mechanical; DESIGN 9.4c)
+    general = ["functions that differ from contracts/snapshots.json only by a renaming of locally bound names (or by an "
+               "accumulation loop written out where the snapshot has the list comprehension) are renamed / rewritten back "
+               "before conditions are generated; a function that calls locals/vars/dir/eval/exec/globals or touches frames is never renamed"]
+    try:
+        ranch = {}
+        for m_ in Repo(REPO_DIR).modules.values():
+            ranch.update(m_.reanchored)
+        if ranch:
+            general.append("re-anchored on this run: " + "; ".join(f"{q} ({', '.join(f'{a}->{b}' for a, b in sorted(r.items())[:6])})"
+                                                                  for q, r in sorted(ranch.items())[:12]))
+    except Exception:  # noqa: BLE001
+        pass
+    trusted = trusted + general
     ev = {
         "property_id": pid, "tier": tier, "seed": seed, "level": level,
         "coverage": {
